@@ -485,10 +485,128 @@ async fn c36_contained(ctx: Ctx, publisher_side: bool) {
     }
 }
 
+/// "Operations on deleted entities fail with AlreadyDeleted" - also when an entity of the same kind has been created since:
+/// the object of the deleted entity must not start to act on the new one. (Added after seeded change C36-2, where the next
+/// subscriber got the handle of the one just deleted.) `others` entities of the kind exist before A is created; `between`
+/// entities are created and deleted between the deletion of A and the creation of B.
+async fn c36_stale(ctx: Ctx, kind: Kind) {
+    let others = ctx.choose(b'O', 2);
+    let between_choices: &[usize] = if std::env::args().any(|a| a == "thorough") { &[0, 1, 2, 3] } else { &[0, 1, 2] };
+    let between = between_choices[ctx.choose(b'O', between_choices.len())];
+    let f = ctx.factory("", None);
+    let p = f.create_participant(0, QosKind::Default, NO_LISTENER, NO_STATUS).await.unwrap();
+    let topic = p.create_topic::<KeyedData>("T", "T", QosKind::Default, NO_LISTENER, NO_STATUS).await.unwrap();
+    let publisher = p.create_publisher(QosKind::Default, NO_LISTENER, NO_STATUS).await.unwrap();
+    let subscriber = p.create_subscriber(QosKind::Default, NO_LISTENER, NO_STATUS).await.unwrap();
+    let k = format!("{kind:?}").to_lowercase();
+    let cfg = format!("others={others} between={between}");
+    let check = |what: &str, got: String, exp: &str| {
+        ctx.obs(format!("{k} {cfg}: {what} -> {got}"));
+        if got != exp {
+            ctx.violation(format!("stale/{k}/{what}/expected={exp}/got={got}"), format!("{cfg}: create A, delete A, create B; `{what}` returned {got}, contract says {exp}"));
+        }
+    };
+    match kind {
+        Kind::Publisher => {
+            let mut keep = vec![];
+            for _ in 0..others {
+                keep.push(p.create_publisher(QosKind::Default, NO_LISTENER, NO_STATUS).await.unwrap());
+            }
+            let a = p.create_publisher(QosKind::Default, NO_LISTENER, NO_STATUS).await.unwrap();
+            p.delete_publisher(&a).await.expect("delete A");
+            for _ in 0..between {
+                let x = p.create_publisher(QosKind::Default, NO_LISTENER, NO_STATUS).await.unwrap();
+                p.delete_publisher(&x).await.expect("delete x");
+            }
+            let b = p.create_publisher(QosKind::Default, NO_LISTENER, NO_STATUS).await.unwrap();
+            check("A.get_qos", err_name(&a.get_qos().await), "AlreadyDeleted");
+            check("A.create_datawriter", err_name(&a.create_datawriter::<KeyedData>(&topic, QosKind::Default, NO_LISTENER, NO_STATUS).await), "AlreadyDeleted");
+            check("delete_publisher(A)", err_name(&p.delete_publisher(&a).await), "AlreadyDeleted");
+            check("B.get_qos", err_name(&b.get_qos().await), "Ok");
+            check("B.create_datawriter", err_name(&b.create_datawriter::<KeyedData>(&topic, QosKind::Default, NO_LISTENER, NO_STATUS).await), "Ok");
+        }
+        Kind::Subscriber => {
+            let mut keep = vec![];
+            for _ in 0..others {
+                keep.push(p.create_subscriber(QosKind::Default, NO_LISTENER, NO_STATUS).await.unwrap());
+            }
+            let a = p.create_subscriber(QosKind::Default, NO_LISTENER, NO_STATUS).await.unwrap();
+            p.delete_subscriber(&a).await.expect("delete A");
+            for _ in 0..between {
+                let x = p.create_subscriber(QosKind::Default, NO_LISTENER, NO_STATUS).await.unwrap();
+                p.delete_subscriber(&x).await.expect("delete x");
+            }
+            let b = p.create_subscriber(QosKind::Default, NO_LISTENER, NO_STATUS).await.unwrap();
+            check("A.get_qos", err_name(&a.get_qos().await), "AlreadyDeleted");
+            check("A.create_datareader", err_name(&a.create_datareader::<KeyedData>(&topic, QosKind::Default, NO_LISTENER, NO_STATUS).await), "AlreadyDeleted");
+            check("delete_subscriber(A)", err_name(&p.delete_subscriber(&a).await), "AlreadyDeleted");
+            check("B.get_qos", err_name(&b.get_qos().await), "Ok");
+            check("B.create_datareader", err_name(&b.create_datareader::<KeyedData>(&topic, QosKind::Default, NO_LISTENER, NO_STATUS).await), "Ok");
+        }
+        Kind::Topic => {
+            let mut keep = vec![];
+            for i in 0..others {
+                keep.push(p.create_topic::<KeyedData>(&format!("O{i}"), "T", QosKind::Default, NO_LISTENER, NO_STATUS).await.unwrap());
+            }
+            let a = p.create_topic::<KeyedData>("A", "T", QosKind::Default, NO_LISTENER, NO_STATUS).await.unwrap();
+            p.delete_topic(&a).await.expect("delete A");
+            for i in 0..between {
+                let x = p.create_topic::<KeyedData>(&format!("X{i}"), "T", QosKind::Default, NO_LISTENER, NO_STATUS).await.unwrap();
+                p.delete_topic(&x).await.expect("delete x");
+            }
+            let b = p.create_topic::<KeyedData>("B", "T", QosKind::Default, NO_LISTENER, NO_STATUS).await.unwrap();
+            check("A.get_qos", err_name(&a.get_qos().await), "AlreadyDeleted");
+            check("delete_topic(A)", err_name(&p.delete_topic(&a).await), "AlreadyDeleted");
+            check("B.get_qos", err_name(&b.get_qos().await), "Ok");
+            check("create_datawriter(B)", err_name(&publisher.create_datawriter::<KeyedData>(&b, QosKind::Default, NO_LISTENER, NO_STATUS).await), "Ok");
+        }
+        Kind::Writer => {
+            let mut keep = vec![];
+            for _ in 0..others {
+                keep.push(publisher.create_datawriter::<KeyedData>(&topic, QosKind::Default, NO_LISTENER, NO_STATUS).await.unwrap());
+            }
+            let a = publisher.create_datawriter::<KeyedData>(&topic, QosKind::Default, NO_LISTENER, NO_STATUS).await.unwrap();
+            publisher.delete_datawriter(&a).await.expect("delete A");
+            for _ in 0..between {
+                let x = publisher.create_datawriter::<KeyedData>(&topic, QosKind::Default, NO_LISTENER, NO_STATUS).await.unwrap();
+                publisher.delete_datawriter(&x).await.expect("delete x");
+            }
+            let b = publisher.create_datawriter::<KeyedData>(&topic, QosKind::Default, NO_LISTENER, NO_STATUS).await.unwrap();
+            check("A.get_qos", err_name(&a.get_qos().await), "AlreadyDeleted");
+            check("A.write", err_name(&a.write(sample(1, 0, 4), None).await), "AlreadyDeleted");
+            check("delete_datawriter(A)", err_name(&publisher.delete_datawriter(&a).await), "AlreadyDeleted");
+            check("B.get_qos", err_name(&b.get_qos().await), "Ok");
+            check("B.write", err_name(&b.write(sample(1, 0, 4), None).await), "Ok");
+        }
+        Kind::Reader => {
+            let mut keep = vec![];
+            for _ in 0..others {
+                keep.push(subscriber.create_datareader::<KeyedData>(&topic, QosKind::Default, NO_LISTENER, NO_STATUS).await.unwrap());
+            }
+            let a = subscriber.create_datareader::<KeyedData>(&topic, QosKind::Default, NO_LISTENER, NO_STATUS).await.unwrap();
+            subscriber.delete_datareader(&a).await.expect("delete A");
+            for _ in 0..between {
+                let x = subscriber.create_datareader::<KeyedData>(&topic, QosKind::Default, NO_LISTENER, NO_STATUS).await.unwrap();
+                subscriber.delete_datareader(&x).await.expect("delete x");
+            }
+            let b = subscriber.create_datareader::<KeyedData>(&topic, QosKind::Default, NO_LISTENER, NO_STATUS).await.unwrap();
+            check("A.get_qos", err_name(&a.get_qos().await), "AlreadyDeleted");
+            check("A.take", err_name(&a.take(1, ANY_SAMPLE_STATE, ANY_VIEW_STATE, ANY_INSTANCE_STATE).await), "AlreadyDeleted");
+            check("delete_datareader(A)", err_name(&subscriber.delete_datareader(&a).await), "AlreadyDeleted");
+            check("B.get_qos", err_name(&b.get_qos().await), "Ok");
+        }
+    }
+}
+
 pub fn c36(args: &Args) -> Vec<Scenario> {
     let d = if args.thorough() { 7 } else { 5 };
     vec![
         Scenario::new(format!("C36.tree[depth={d}]"), 99, move |ctx| c36_prog(ctx, d)).cfg(|c| c.keep_logs = false),
+        Scenario::new("C36.stale[publisher]", 99, |ctx| c36_stale(ctx, Kind::Publisher)),
+        Scenario::new("C36.stale[subscriber]", 99, |ctx| c36_stale(ctx, Kind::Subscriber)),
+        Scenario::new("C36.stale[topic]", 99, |ctx| c36_stale(ctx, Kind::Topic)),
+        Scenario::new("C36.stale[writer]", 99, |ctx| c36_stale(ctx, Kind::Writer)),
+        Scenario::new("C36.stale[reader]", 99, |ctx| c36_stale(ctx, Kind::Reader)),
         Scenario::new("C36.contained-publisher[]", 0, |ctx| c36_contained(ctx, true)),
         Scenario::new("C36.contained-subscriber[]", 0, |ctx| c36_contained(ctx, false)),
     ]
